@@ -27,7 +27,7 @@ def respond(fullname, beh, payload):
     if beh == 'by-payload':
         # first payload byte selects the behaviour, so one module can serve good and bad sections
         sel = {0x00: 'obj', 0x01: 'raise', 0x02: 'importerror', 0x03: 'none', 0x04: 'null', 0x05: 'empty',
-               0x06: 'list', 0x07: 'str'}
+               0x06: 'list', 0x07: 'str', 0x08: 'nan', 0x09: 'overflow', 0x0A: 'deep', 0x0B: 'hugeint'}
         beh = sel.get(payload[0] if len(payload) else 0, 'obj')
     if beh == 'obj':
         return json.dumps({'Fixture': fullname.split('.')[-1], 'Payload': bytes(payload).hex()})
@@ -45,6 +45,15 @@ def respond(fullname, beh, payload):
         return ''
     if beh == 'badjson':
         return '{not json'
+    # text that Python's json.loads accepts but that cannot be printed again as (strict) JSON inside the PEL document
+    if beh == 'nan':
+        return '{"v": NaN, "w": [Infinity, -Infinity]}'
+    if beh == 'overflow':
+        return '{"v": 1e999, "ok": 1}'
+    if beh == 'deep':
+        return '[' * 1200 + ']' * 1200
+    if beh == 'hugeint':
+        return '{"n": ' + '7' * 5000 + '}'
     if beh == 'raise':
         raise FixtureError('fixture parser failure')
     if beh == 'importerror':
